@@ -30,6 +30,8 @@ a3cb032 C17 C17.own
 fdf1794 C14 C14.errflow
 288316b C17 C17.reset
 c4d33bf C08 C08.reposition
+90d470c C05 C05.boundary
+a084387 C20 C20.result
 LIST
 git -C /repo worktree remove --force $WT
 rm -rf /tmp/fixcheck-ev
